@@ -98,6 +98,12 @@ def copy_specs(workdir):
             shutil.copy(os.path.join(scen.SPEC_DIR, f), workdir)
 
 
+def snapshot_specs(target):
+    """Copies the spec directory once per check so that concurrent edits of /verif/spec cannot disturb a running check"""
+    copy_specs(target)
+    scen.SPEC_DIR = target
+
+
 def extract_print(out, key):
     """Finds the value printed as <<"KEY", value>> by PrintT"""
     m = re.search(r'<<\s*"%s",\s*(.*?)>>\s*\n(?=<<\s*"|Model checking|Error|\d+ states|$)' % key, out, re.S)
